@@ -77,8 +77,10 @@ def opt_config(rng, kw, meta):
     x0, xend = kw["x0"], kw["xend"]
     span = abs(xend - x0)
     r = rng.random()
-    if r < 0.15:
-        kw["first_step"] = span * rng.choice([1e-3, 0.1, 1.0])
+    if r < 0.3:
+        # including first steps that reach or overshoot xend: the first attempt is then already the landing step, and
+        # may be rejected (seeded change C03-c: Radau kept its `last` flag across a rejected first attempt)
+        kw["first_step"] = span * rng.choice([1e-3, 0.1, 1.0, 1.0, 2.5, 10.0])
     r = rng.random()
     if r < 0.3:
         kw["max_step"] = rng.choice([span / 4, span / 7, span / math.pi, span, float("inf")])
